@@ -7,4 +7,4 @@ s = json.load(open('/root/.vp/EVIDENCE.schema.json'))
 for p in sorted(glob.glob('/verif/evidence/*.json')):
     jsonschema.validate(json.load(open(p)), s)
     e = json.load(open(p)); c = e['coverage']
-    print(p, 'ok', c['obligations'], c['discharged'], 'bounded', len(c['bounded_units']), 'wall', e['wall_s'])
+    print(p, 'ok', e['level'], c.get('obligations'), c.get('discharged'), 'bounded', len(c['bounded_units']), 'wall', e['wall_s'])
